@@ -192,7 +192,7 @@ def _tame(x):
     if isinstance(x, dict):
         # the answer object itself (its key order is fixed); custom variable objects are left out
         return set(x) <= {"data", "failed", "total_count", "rows_scanned", "columns"} and all(_tame(e) for k, e in x.items() if k != "failed") \
-            and all(isinstance(e, str) and _TAME.match(e) for e in x.get("failed", {}).values())
+            and all(isinstance(e, str) and _TAME.match(e) for e in x.get("failed", {}).values()) and len(x.get("failed", {})) <= 1   # a Go map: no order
     return False
 
 
